@@ -7,6 +7,7 @@ mod kem;
 mod keysched;
 mod latesender;
 mod nodevec;
+mod parenthash;
 mod pathreq;
 mod privgen;
 mod ratchet;
@@ -41,6 +42,7 @@ fn main() {
         "keysched" => keysched::run(&a[2], &a[3]),
         "reinitrule" => reinitrule::run(&a[2], &a[3]),
         "hashcache" => hashcache::run(&a[2], &a[3]),
+        "parenthash" => parenthash::run(&a[2], &a[3]),
         _ => std::process::exit(2),
     }
 }
